@@ -1,7 +1,8 @@
-(* C01 driver: histories through the extracted model (ModelEl.zrun_fast / ModelEl.st_zrun / ModelExt.iv_xrun_fast - the
-   fast forms proved equal to zrun / iv_xrun on every invariant state, Properties_el.C01_zfast_model_equal,
-   Properties_ext.C01_inplace_vector_fast_model_equal)
-   and spec (SpecEl.zspec_run / st_zspec_run, SpecExt.iv_xspec_run).
+(* C01 driver: histories through the extracted model (ModelArg.wrun_fast / st_wrun / iv_wrun_fast - the
+   fast forms proved equal to wrun / iv_wrun on every invariant state, Properties_arg.C01_wfast_model_equal)
+   and spec (SpecArg.wspec_run / st_wspec_run / iv_wspec_run).
+   The argument types of the flavour enter as ModelArg.argt (arg_of_fl): the language's == between an element and a
+   value of another arithmetic type, the conversion of an element, the element T(a, b).
    The element type of the flavour enters as ModelEl.elt: its operator< / operator== (records ordered by key only for the
    `_kt` flavours, the integer order otherwise) and the value a moved-from element is left with. *)
 let b t = next_int t <> 0
@@ -20,13 +21,27 @@ let elt_of (flavour : string) : elt =
   match e with
   | "kt" -> elt_keytag
   | "trk" | "mov" -> elt_total (mv_const (z_of_int (-555)))   (* the instrumented types mark a moved-from object *)
-  | "str" -> elt_total (mv_const (z_of_int 0))                 (* a moved-from std::string is empty *)
+  | "str" | "vi" -> elt_total (mv_const (z_of_int 0))          (* a moved-from std::string / std::vector<int> is empty *)
   | _ -> elt_total mv_keep                                     (* int, Pod, NxCopy, TdcCopy: a move is a copy *)
 
-let parse_sv (t : toks) : zop list =
+(* flavour -> argument types (ModelArg.argt): what  item == value  means for a value of another arithmetic type, what a
+   conversion of the element gives, which element T(a, b) is *)
+let arg_of_fl (flavour : string) : argt =
+  let e = match String.index_opt flavour '_' with
+    | Some i -> String.sub flavour (i + 1) (String.length flavour - i - 1)
+    | None -> "int" in
+  match e with
+  | "ll" -> arg_ll
+  | "dbl" -> arg_dbl
+  | "vi" -> arg_vi
+  | "iln" | "ilt" -> arg_il
+  | _ -> arg_int
+
+let parse_sv (t : toks) : wop list =
   let k = next_int t in
   let ops = ref [] in
-  let zpush x = ops := x :: !ops in
+  let wpush x = ops := x :: !ops in
+  let zpush x = wpush (WZ x) in
   let ypush x = zpush (ZY x) in
   let push x = ypush (XBase x) in
   let base x = push (Base x) in
@@ -90,14 +105,19 @@ let parse_sv (t : toks) : zop list =
         | "mik" -> let c = itcat_of (next_int t) in let p = next_z t in let xs = next_zlist t in zpush (ZMoveInsertRange (tg, c, p, xs))
         | "ask" -> let c = itcat_of (next_int t) in let xs = next_zlist t in zpush (ZAssignRange (tg, c, xs))
         | "ctk" -> let c = itcat_of (next_int t) in let xs = next_zlist t in zpush (ZCtorRange (tg, c, xs))
+        | "erh" -> let k = next_z t in let x = next_z t in wpush (WEraseValHet (tg, k, x))
+        | "eih" -> let k = next_z t in let p = next_z t in wpush (WEraseIfHet (tg, k, p))
+        | "eb2" -> let a = next_z t in let b = next_z t in wpush (WEmplaceBack2 (tg, a, b))
+        | "em2" -> let p = next_z t in let a = next_z t in let b = next_z t in wpush (WEmplaceAt2 (tg, p, a, b))
         | _ -> raise Not_found))
   done;
   List.rev !ops
 
-let parse_st (t : toks) : st_zop list =
+let parse_st (t : toks) : st_wop list =
   let k = next_int t in
   let ops = ref [] in
-  let zpush x = ops := x :: !ops in
+  let wpush x = ops := x :: !ops in
+  let zpush x = wpush (StW x) in
   let ypush x = zpush (StZ x) in
   let push x = ypush (StBase x) in
   for _ = 1 to k do
@@ -124,14 +144,16 @@ let parse_st (t : toks) : st_zop list =
         | "sca" -> push (StSelfAssign tg)
         | "fcc" -> let xs = next_zlist t in push (StFromContainer (tg, xs))
         | "fcr" -> let xs = next_zlist t in push (StFromContainerRv (tg, xs))
+        | "eb2" -> let a = next_z t in let b = next_z t in wpush (StWEmplace2 (tg, a, b))
         | _ -> raise Not_found))
   done;
   List.rev !ops
 
-let parse_iv (t : toks) : iv_xop list =
+let parse_iv (t : toks) : iv_wop list =
   let k = next_int t in
   let ops = ref [] in
-  let push x = ops := x :: !ops in
+  let wpush x = ops := x :: !ops in
+  let push x = wpush (IvW x) in
   let base x = push (IvBase x) in
   for _ = 1 to k do
     let o = next_str t in
@@ -161,6 +183,8 @@ let parse_iv (t : toks) : iv_xop list =
      | "dat" -> push (IvDataRead tg)
      | "mxs" -> push (IvMaxSize tg)
      | "cpi" -> let d = b t in let x = next_z t in push (IvCopyIndep (tg, d, x))
+     | "te2" -> let a = next_z t in let b = next_z t in wpush (IvWTryEmplace2 (tg, a, b))
+     | "ue2" -> let a = next_z t in let b = next_z t in wpush (IvWUncheckedEmplace2 (tg, a, b))
      | _ -> raise Not_found)
   done;
   List.rev !ops
@@ -198,13 +222,16 @@ let run_case op t =
       let cz = z_of_int capi in
       if has_prefix flavour "iv" then begin
         let ops = parse_iv t in
-        (render (iv_xrun_fast s0 ops), render_spec (iv_xspec_run cz ([], []) ops))
+        let a = arg_of_fl flavour in
+        (render (iv_wrun_fast a s0 ops), render_spec (iv_wspec_run a cz ([], []) ops))
       end else if has_prefix flavour "st" then begin
         let ops = parse_st t in
-        (render (st_zrun (elt_of flavour) s0 ops), render_spec (st_zspec_run (elt_of flavour) cz ([], []) ops))
+        let a = arg_of_fl flavour in
+        (render (st_wrun a (elt_of flavour) s0 ops), render_spec (st_wspec_run a (elt_of flavour) cz ([], []) ops))
       end else begin
         let ops = parse_sv t in
-        (render (zrun_fast (elt_of flavour) pred_of s0 ops), render_spec (zspec_run (elt_of flavour) pred_of cz ([], []) ops))
+        let a = arg_of_fl flavour in
+        (render (wrun_fast a (elt_of flavour) pred_of s0 ops), render_spec (wspec_run a (elt_of flavour) pred_of cz ([], []) ops))
       end
   | _ -> raise Not_found
 
